@@ -547,9 +547,18 @@ def r01fgh(ctx):
             ctx.report("R01h", f, f.node, f"{q} row stepping", "the row position must advance by one for every input row, including empty ones that are skipped")
 
 
+def r01_caches(ctx, tom):
+    """A read served from an obsolete map or a stale cached wrapper returns another cell than the grid's: the cache rules of C02
+    (R02a/R02b from TOM, R02c vault protocol) are necessary conditions of C01 as well and are evaluated here too."""
+    from .c02 import r02ab, r02c
+    r02ab(ctx, tom)
+    r02c(ctx)
+
+
 def run(ctx):
     tom = run_tom(ctx.repo)
     r01a(ctx, tom)
+    r01_caches(ctx, tom)
     r01b(ctx)
     r01c(ctx)
     r01d(ctx)
